@@ -407,6 +407,9 @@ func (c *Compiled) Run(input any, inputs []any, timeout time.Duration) (res Gojq
 	defer func() {
 		if r := recover(); r != nil {
 			res.Out = append(res.Out, Outcome{"k": "x", "why": fmt.Sprintf("panic: %v", r)})
+			if res.Side == nil {
+				res.Side = []any{}
+			}
 		}
 	}()
 	*c.side = nil
